@@ -751,6 +751,8 @@ func c10(run *ev.Run, tier string) {
 	}
 	c10SourceDateEpoch(run, base, kr, &verified, haveGpgv, gpgVerify)
 	c10EmptyKeyID(run, base, kr, &verified)
+	c10Keyrings(run, base, &verified)
+	c10UnneededPassphrase(run, base, kr, &verified)
 	run.Set("signatures_verified", verified)
 	run.Set("callback_byte_streams_compared", cbBytes)
 	run.Set("failure_injections", failures)
@@ -1164,6 +1166,140 @@ func c10EmptyKeyID(run *ev.Run, base func() *gen.Spec, kr openpgp.EntityList, ve
 			}
 			if verr != nil {
 				run.Violate("C10/"+format+"/signature-does-not-verify/key-id-expands-to-nothing", map[string]any{"key_id": kid, "method": m, "error": verr.Error()})
+			} else {
+				atomic.AddInt64(verified, 1)
+			}
+		}
+	}
+}
+
+// c10Keyrings: a key file may hold more than the signing key - other people's
+// public keys exported into the same file, before or after it, armored or
+// binary. The one secret key signs.
+func c10Keyrings(run *ev.Run, base func() *gen.Spec, verified *int64) {
+	dir := newWorkDir("c10ring")
+	defer removeWorkDir(dir)
+	cfg := &packet.Config{RSABits: 2048, DefaultHash: crypto.SHA256}
+	signer, err1 := openpgp.NewEntity("Signer", "", "signer@example.com", cfg)
+	other, err2 := openpgp.NewEntity("Other", "", "other@example.com", cfg)
+	if err1 != nil || err2 != nil {
+		run.Inconclusive(fmt.Sprint("cannot generate PGP keys: ", err1, err2))
+		return
+	}
+	write := func(name string, armored bool, order []string) string {
+		var raw bytes.Buffer
+		for _, o := range order {
+			if o == "secret" {
+				_ = signer.SerializePrivateWithoutSigning(&raw, nil)
+			} else {
+				_ = other.Serialize(&raw)
+			}
+		}
+		p := filepath.Join(dir, name)
+		if !armored {
+			_ = os.WriteFile(p, raw.Bytes(), 0o600)
+			return p
+		}
+		var out bytes.Buffer
+		w, _ := armor.Encode(&out, openpgp.PrivateKeyType, nil)
+		_, _ = w.Write(raw.Bytes())
+		_ = w.Close()
+		_ = os.WriteFile(p, out.Bytes(), 0o600)
+		return p
+	}
+	for _, armored := range []bool{false, true} {
+		for _, order := range [][]string{{"secret", "public"}, {"public", "secret"}, {"public", "secret", "public"}} {
+			keyPath := write(fmt.Sprintf("ring-%v-%s.key", armored, strings.Join(order, "-")), armored, order)
+			for _, m := range []string{"deb", "deb-dpkg-sig", "rpm"} {
+				format := strings.SplitN(m, "-", 2)[0]
+				s := base()
+				s.Deb.Sig.KeyFile, s.RPM.Sig.KeyFile = keyPath, keyPath
+				if m == "deb-dpkg-sig" {
+					s.Deb.Sig.Method = "dpkg-sig"
+				}
+				res := buildYAML(s.YAML(), format)
+				run.Case(fmt.Sprintf("keyring|armored=%v|%s|%s", armored, strings.Join(order, "+"), m), true)
+				if res.Err != nil || res.Panic != "" {
+					run.Violate("C10/"+format+"/signed-build-error/key-file-with-further-public-keys", map[string]any{"armored": armored, "order": order, "method": m, "error": fmt.Sprint(res.Err, ev.Short(res.Panic, 200))})
+					continue
+				}
+				p := dec.Decode(format, res.Bytes, false)
+				ring := openpgp.EntityList{signer}
+				var verr error
+				switch m {
+				case "deb":
+					_, verr = openpgp.CheckArmoredDetachedSignature(ring, bytes.NewReader(debMessage(p)), bytes.NewReader(p.SigMember.Data), nil)
+				case "deb-dpkg-sig":
+					if blk, _ := clearsign.Decode(p.SigMember.Data); blk == nil {
+						verr = errors.New("not clear-signed")
+					} else {
+						_, verr = blk.VerifySignature(ring, nil)
+					}
+				case "rpm":
+					_, verr = openpgp.CheckDetachedSignature(ring, bytes.NewReader(p.Rpm.Hdr.Blob), bytes.NewReader(p.Rpm.Sig.Tags[dec.RpmSigRSA].Bin), nil)
+				}
+				if verr != nil {
+					run.Violate("C10/"+format+"/signature-not-by-the-secret-key-of-the-key-file", map[string]any{"armored": armored, "order": order, "method": m, "error": verr.Error()})
+				} else {
+					atomic.AddInt64(verified, 1)
+				}
+			}
+		}
+	}
+}
+
+// c10UnneededPassphrase: a passphrase that is configured although the key is
+// not protected (one NFPM_PASSPHRASE for all formats of a configuration, only
+// some of whose keys are locked) does not get in the way.
+func c10UnneededPassphrase(run *ev.Run, base func() *gen.Spec, kr openpgp.EntityList, verified *int64) {
+	rsaPub, err := loadRSAPub(testKey("rsa_unprotected.pub"))
+	if err != nil {
+		run.Inconclusive(err.Error())
+		return
+	}
+	for _, envName := range []string{"NFPM_PASSPHRASE", "SPECIFIC"} {
+		for _, f := range []string{"deb", "rpm", "apk"} {
+			s := base()
+			s.Deb.Sig.KeyFile, s.RPM.Sig.KeyFile = testKey("privkey_unprotected.asc"), testKey("privkey_unprotected.asc")
+			s.APK.Sig.KeyFile, s.APK.Sig.KeyName = testKey("rsa_unprotected.priv"), "verif"
+			name := envName
+			if name == "SPECIFIC" {
+				name = "NFPM_" + strings.ToUpper(f) + "_PASSPHRASE"
+			}
+			cfg, err := parseYAML(s.YAML(), func(k string) string {
+				if k == name {
+					return "not-needed-for-this-key"
+				}
+				return ""
+			})
+			run.Case("unneeded-passphrase|"+name+"|"+f, true)
+			if err != nil {
+				run.Inconclusive(err.Error())
+				continue
+			}
+			info, _ := infoFor(&cfg, f)
+			res := packageInfo(f, info)
+			if res.Err != nil || res.Panic != "" {
+				run.Violate("C10/"+f+"/signed-build-error/passphrase-given-for-an-unprotected-key", map[string]any{"variable": name, "error": fmt.Sprint(res.Err, ev.Short(res.Panic, 200))})
+				continue
+			}
+			p := dec.Decode(f, res.Bytes, false)
+			var verr error
+			switch f {
+			case "deb":
+				_, verr = openpgp.CheckArmoredDetachedSignature(kr, bytes.NewReader(debMessage(p)), bytes.NewReader(p.SigMember.Data), nil)
+			case "rpm":
+				_, verr = openpgp.CheckDetachedSignature(kr, bytes.NewReader(p.Rpm.Hdr.Blob), bytes.NewReader(p.Rpm.Sig.Tags[dec.RpmSigRSA].Bin), nil)
+			case "apk":
+				if len(p.GzMembers) < 2 || p.SigTar == nil || len(p.SigTar.Entries) == 0 {
+					verr = errors.New("no signature segment")
+				} else {
+					h := sha1.Sum(p.GzMembers[1].Raw)
+					verr = rsa.VerifyPKCS1v15(rsaPub, crypto.SHA1, h[:], p.SigTar.Entries[0].Data)
+				}
+			}
+			if verr != nil {
+				run.Violate("C10/"+f+"/signature-does-not-verify/passphrase-given-for-an-unprotected-key", map[string]any{"variable": name, "error": verr.Error()})
 			} else {
 				atomic.AddInt64(verified, 1)
 			}
